@@ -96,8 +96,16 @@ func transport(b []byte, p pkt) {
 	}
 }
 
+// inboundTypes are link-layer packet types other than "outgoing" (4): this host, broadcast,
+// multicast, other host, loopback, user, kernel, unknown (255), and two values whose low bits
+// equal 4 (the type is a byte: everything but 4 counts as received).
+var inboundTypes = []byte{0, 1, 2, 3, 5, 6, 7, 255, 0x84, 0x44}
+
 func (p pkt) wire() simnet.Packet {
-	t := byte(0) // PacketThisHost
+	t := inboundTypes[(p.tag*7+int(p.size))%len(inboundTypes)]
+	if p.tag%3 != 0 {
+		t = 0 // PacketThisHost: the usual case
+	}
 	if p.out {
 		t = 4 // PacketOutgoing
 	}
